@@ -111,6 +111,21 @@ def run_exact(job):
         tD = dd / TAB['rocd_d']
         dD = math.sqrt(TAB['tas_d'] ** 2 - TAB['rocd_d'] ** 2) * tD
         fD = TAB['ff_d'] * tD
+        # positions: on the origin-destination great circle at the recorded distance - also for the
+        # points the descent puts beyond the destination (this table glides at 20:1, shallower than the
+        # builder's 18.23:1 top-of-descent rule, so the last descent points overshoot by about 16 km)
+        from AEIC.utils import GEOD
+
+        o_, d_ = m.origin_position, m.destination_position
+        az0, _, _ = GEOD.inv(o_.longitude, o_.latitude, d_.longitude, d_.latitude)
+        gd = np.asarray(t.ground_distance, float)
+        plon, plat, _ = GEOD.fwd(np.full(len(t), o_.longitude), np.full(len(t), o_.latitude), np.full(len(t), az0), gd)
+        _, _, off = GEOD.inv(plon, plat, np.asarray(t.longitude, float), np.asarray(t.latitude, float))
+        for i in range(len(t)):
+            if not (math.isfinite(off[i]) and off[i] <= 1.0):
+                where = 'beyond-destination' if gd[i] > D else 'en-route'
+                devs.append((f'exact:position:{where}', f'n=({nC},{nZ},{nD}) {route}: point {i} at ground distance {gd[i]:.1f} m (route length {D:.1f} m) is {off[i]:.1f} m away from the great circle point at that distance'))
+                break
         if len(t) != len(case['pts']):
             return [('exact:length', f'n=({nC},{nZ},{nD}): trajectory has {len(t)} points; specification: {len(case["pts"])}')]
         if (int(t.n_climb), int(t.n_cruise), int(t.n_descent)) != (nC, nZ, nD - 1):
@@ -227,11 +242,33 @@ def check_resample(t):
     return None
 
 
+def glide_model(scale):
+    """The shipped B738 table with the descent rates scaled: a valid table that
+    glides shallower (scale < 1) than the builder's top-of-descent rule assumes."""
+    key = ('glide', scale)
+    if key not in _state:
+        import tomllib
+
+        from AEIC.config import config
+        from AEIC.performance.models import PerformanceModel
+
+        with open(config.file_location('performance/sample_performance_model.toml'), 'rb') as fp:
+            d = tomllib.load(fp)
+        fk = next(k for k in d if k.lower() == 'flight_performance')
+        cols = [c.lower() for c in d[fk]['cols']]
+        ir = cols.index('rocd')
+        d[fk]['data'] = [[(v * scale if j == ir and r[ir] < 0 else v) for j, v in enumerate(r)] for r in d[fk]['data']]
+        _state[key] = PerformanceModel.from_data(d)
+    return _state[key]
+
+
 def run_traced(job):
     warnings.simplefilter('ignore')
     try:
         pm = setup()
-        route, lf, fracs, start_mass, iterate = job
+        route, lf, fracs, start_mass, iterate = job[:5]
+        if len(job) > 5 and job[5] is not None:
+            pm = glide_model(job[5])
         m = mission(route[0], route[1], load_factor=lf)
         kw = {} if start_mass is None else {'starting_mass': start_mass}
         try:
@@ -272,6 +309,10 @@ def traced_jobs(ctx):
         jobs.append((p, 0.5, fr[2], 60000.0, False))
         jobs.append((p, 1.0, fr[0], 52000.0, False))
         jobs.append((p, 1.0, fr[1], None, True))
+    # valid tables with another glide ratio: 0.6 overshoots the destination by tens of km, 1.5 stops well short
+    for p in [('BOS', 'LAX'), ('SFO', 'ORD'), ('DLW', 'DLE'), ('PLA', 'PLB'), ('MRA', 'MRB')]:
+        for sc in (0.6, 1.5):
+            jobs.append((p, 1.0, fr[1], None, False, sc))
     return jobs
 
 
@@ -338,9 +379,9 @@ def run_container_walk(hist):
 def run(ctx: Ctx):
     ctx.rule = (
         'A: every (n_climb, n_cruise, n_descent) of the TLC case set (2..101, around the 50-point growth boundary) flown exactly with a '
-        'phase-constant table on an equatorial and a meridional route; B: B738 flights over seeded airport pairs of the test airport file and '
+        'phase-constant table (20:1 glide, so the descent overshoots the destination) on an equatorial, a meridional, a transcontinental and an antimeridian route, positions included; B: B738 flights over seeded airport pairs of the test airport file and '
         '14 special routes (antimeridian, polar, near-antipodal, very short, high elevation) x load factors x 5 step-fraction triples x given '
-        'starting masses x mass iteration, each validated as a trace; non-trivial = a phase does not end on the 50-point boundary, or special route'
+        'starting masses x mass iteration x descent-rate-scaled tables (0.6: overshoot, 1.5), each validated as a trace; non-trivial = a phase does not end on the 50-point boundary, or special route'
     )
     ctx.assumptions += [
         'pyproj.Geod is the trusted base for "on the great circle at the recorded distance" (1 m tolerance)',
@@ -363,7 +404,8 @@ def run(ctx: Ctx):
     if ctx.quick:
         ctx.rng.shuffle(cases)
         cases = cases[:60]
-    jobs = [(c, r) for c in cases for r in ((('EQA', 'EQB'),) if ctx.quick else (('EQA', 'EQB'), ('MRA', 'MRB')))]
+    routes = (('EQA', 'EQB'), ('MRA', 'MRB'), ('BOS', 'LAX'), ('DLW', 'DLE'))
+    jobs = [(c, r) for i, c in enumerate(cases) for r in ((routes[i % len(routes)],) if ctx.quick else routes)]
     ctx.log(f'tier A: {len(jobs)} exact flights')
     for (case, route), devs in zip(jobs, pmap(run_exact, jobs)):
         nt = any(x % 50 for x in (case['nC'], case['nC'] + case['nZ'], case['nC'] + case['nZ'] + case['nD']))
